@@ -26,6 +26,7 @@ STATEMENT_KEYS = {'expr', 'jump', 'label', 'return', 'function', 'include'}
 # worker
 # --------------------------------------------------------------------------------------------
 _MODULE = None
+_PROC_HISTORY = []      # seeds this worker process has run so far, in order (runs that are not forked per run)
 
 
 def _worker_init(mod_name):
@@ -46,12 +47,16 @@ def _run_chunk(args):
     digests = {}
     t0 = time.time()
     faulthandler.dump_traceback_later(600, exit=True)
+    isolate = getattr(mod, 'ISOLATE', False)
+    history_before = list(_PROC_HISTORY)
     try:
         for seed in seeds:
             if deadline is not None and time.time() > deadline:
                 stats.c['seeds_skipped_after_wall_cap'] += 1
                 continue
             res = None
+            if not isolate:
+                _PROC_HISTORY.append(seed)
             for _attempt in range(3):
                 try:
                     plan = mod.gen(seed, tier, extra)
@@ -86,7 +91,9 @@ def _run_chunk(args):
                 stats.samples.append(res.sample)
     finally:
         faulthandler.cancel_dump_traceback_later()
-    return stats.to_wire(), violations, digests, time.time() - t0
+    # what this process ran before this chunk: if a violation does not reproduce on its own, the parent replays it
+    # after this history (process-global state left behind by earlier runs)
+    return stats.to_wire(), violations, digests, time.time() - t0, (history_before if violations and not isolate else None)
 
 
 def run_isolated(mod, plan, stats):
@@ -207,10 +214,9 @@ def minimise(mod, plan, target, max_runs=400, max_seconds=40):
         try:
             if hasattr(mod, 'fixup'):
                 mod.fixup(candidate)
-            if getattr(mod, 'ISOLATE', False):
-                res = run_isolated(mod, candidate, Stats())
-            else:
-                res = mod.run(candidate, Stats())
+            # always in a forked child of this (pristine: the parent never runs a plan itself) process, so that what
+            # survives minimisation is what a fresh interpreter reproduces, whatever state runs leave behind
+            res = run_isolated(mod, candidate, Stats())
         except SimWatchdog:
             res = RunResult([Violation(mod.PROP, 'live', 'wall-clock-hang', {'note': 'hang guard'})], 'hang')
         except Exception:  # pylint: disable=broad-except
@@ -309,6 +315,20 @@ def do_replay(mod, path):
     plan = data['plan']
     if hasattr(mod, 'fixup'):
         mod.fixup(plan)
+    # a violation that needs state left behind by earlier runs in the same process: run that history first
+    hist = data.get('history_plans')
+    if hist is None and data.get('history_seeds'):
+        hist = [mod.gen(s, data.get('tier', 'quick'), data.get('extra')) for s in data['history_seeds']]
+    for hplan in hist or []:
+        GUARD.arm(getattr(mod, 'HANG_LIMIT_S', None))
+        try:
+            mod.run(hplan, Stats())
+        except (SimWatchdog, Exception):  # pylint: disable=broad-except
+            pass
+        finally:
+            GUARD.disarm()
+    if hist:
+        print(f'REPLAY ran a history of {len(hist)} earlier runs in this process first')
     GUARD.arm(getattr(mod, 'HANG_LIMIT_S', None))
     try:
         res = mod.run(plan, Stats())
@@ -328,6 +348,72 @@ def do_replay(mod, path):
         return 1
     print(f'REPLAY does not reproduce on this tree (code digest now {boot.code_digest()}, then {data.get("code_digest")})')
     return 0
+
+
+def reproduce_with_history(mod, tier, extra, vseed, wire, history, budget_s=240):
+    """The violation at `vseed` did not reproduce on its own. `history`: the seeds the worker process had run, in
+    order, up to and including vseed. Find a short sub-sequence of earlier runs after which the violation does
+    reproduce in a FRESH interpreter (process-global state left behind by earlier runs), and write it as replay file.
+    Returns (path, n_history, tests) or (None, 0, tests)."""
+    t0 = time.time()
+    before = [s for s in history[:-1]]
+    plan = mod.gen(vseed, tier, extra)
+    path = os.path.join(out_dir('replays'), f'{mod.PROP}-{wire["rule"]}-{vseed}.json')
+    tests = [0]
+
+    def write(sub, final=False):
+        data = {'property': mod.PROP, 'seed': vseed, 'rule': wire['rule'], 'signature': wire['signature'],
+                'detail': wire['detail'], 'plan': plan, 'tier': tier, 'extra': extra, 'history_seeds': sub,
+                'note': 'this violation needs state left behind by earlier runs in the same process: the replay runs '
+                        'the plans of history_seeds (in order) and then the plan',
+                'code_digest': boot.code_digest(), 'how': f'./check {mod.PROP} --replay {path}'}
+        if final and len(sub) <= 20:
+            data['history_plans'] = [mod.gen(s, tier, extra) for s in sub]
+        with open(path, 'w') as fh:
+            json.dump(data, fh, indent=1, default=str)
+
+    def test(sub):
+        tests[0] += 1
+        write(sub)
+        try:
+            ok, _out = replay_fresh(mod, path)
+        except subprocess.TimeoutExpired:
+            ok = False
+        return ok
+
+    found = None
+    k = 1
+    while time.time() - t0 < budget_s:
+        sub = before[-k:] if k < len(before) else list(before)
+        if sub and test(sub):
+            found = sub
+            break
+        if k >= len(before):
+            break
+        k *= 4
+    if found is None:
+        try:
+            os.unlink(path)
+        except OSError:
+            pass
+        return None, 0, tests[0]
+    # delta debugging over the history
+    chunk = max(1, len(found) // 2)
+    while time.time() - t0 < budget_s and len(found) > 1:
+        start = 0
+        shrunk = False
+        while start < len(found) and time.time() - t0 < budget_s and len(found) > 1:
+            cand = found[:start] + found[start + chunk:]
+            if cand and test(cand):
+                found = cand
+                shrunk = True
+            else:
+                start += chunk
+        if chunk == 1 and not shrunk:
+            break
+        chunk = max(1, chunk // 2)
+    write(found, final=True)
+    return path, len(found), tests[0]
 
 
 def replay_fresh(mod, path):
@@ -359,6 +445,7 @@ def run_batch(mod, tier, base_seed, workers=None):
     digests_a = {}
     digests_b = {}
     harness_errors = []
+    histories = {}
     ctx = multiprocessing.get_context('fork')
     mod_name = mod.__name__
     truncated = False
@@ -377,7 +464,7 @@ def run_batch(mod, tier, base_seed, workers=None):
             for fut in done:
                 tag = futs[fut]
                 try:
-                    swire, viols, digs, _secs = fut.result()
+                    swire, viols, digs, _secs, hist_before = fut.result()
                 except BaseException as exc:  # pylint: disable=broad-except
                     if isinstance(exc, KeyboardInterrupt):
                         raise
@@ -391,6 +478,9 @@ def run_batch(mod, tier, base_seed, workers=None):
                     continue
                 total.merge(Stats.from_wire(swire))
                 all_viol.extend(viols)
+                if hist_before is not None:
+                    for vseed, _w in viols:
+                        histories.setdefault(vseed, hist_before + chunks[tag][:chunks[tag].index(vseed) + 1])
             # workers stop taking new seeds at the deadline themselves (graceful truncation); only a chunk that is
             # still running long after it is a harness problem
             if time.time() - t0 > wall_cap + 900 and pending:
@@ -404,7 +494,7 @@ def run_batch(mod, tier, base_seed, workers=None):
         diff = [s for s in digests_a if digests_a.get(s) != digests_b.get(s)]
         harness_errors.append(f'determinism canary failed for seeds {diff[:5]}')
     return total, all_viol, harness_errors, {'canary_ok': canary_ok, 'canary_seeds': len(canary),
-                                             'truncated': truncated, 'workers': workers,
+                                             'truncated': truncated, 'workers': workers, 'histories': histories,
                                              'wall_s': time.time() - t0,
                                              'seeds': n_seeds - total.c.get('seeds_skipped_after_wall_cap', 0)}
 
@@ -441,7 +531,7 @@ def main_check(mod, argv):
     known, _fixed = load_known()
     # group violations
     groups = {}
-    for vseed, wire in all_viol:
+    for vseed, wire in sorted(all_viol, key=lambda x: x[0]):
         key = (wire['property'], wire['rule'], wire['signature'])
         groups.setdefault(key, []).append((vseed, wire))
     exit_code = 0
@@ -468,7 +558,7 @@ def main_check(mod, argv):
                     mod.fixup(kplan)
                 GUARD.arm()
                 try:
-                    kres = run_isolated(mod, kplan, Stats()) if getattr(mod, 'ISOLATE', False) else mod.run(kplan, Stats())
+                    kres = run_isolated(mod, kplan, Stats())
                 finally:
                     GUARD.disarm()
                 reproduced = any(v.rule == k['rule'] and v.signature == k['signature'] for v in kres.violations)
@@ -494,7 +584,18 @@ def main_check(mod, argv):
         else:
             small, v, nruns = minimise(mod, plan, wire)
         if v is None:
-            harness_errors.append(f'violation at seed {vseed} did not reproduce in the parent process')
+            hist = meta.get('histories', {}).get(vseed)
+            hpath = None
+            if hist and len(hist) > 1:
+                hpath, nh, ntests = reproduce_with_history(mod, tier, mod.budget(tier).get('extra'), vseed, wire, hist)
+            if hpath is None:
+                harness_errors.append(f'violation at seed {vseed} did not reproduce in the parent process')
+                continue
+            print(f'  does not reproduce on its own; reproduces in a fresh interpreter after a history of {nh} earlier '
+                  f'run(s) in the same process (of {len(hist) - 1}; {ntests} replays) -> {hpath}')
+            print(f'  detail: {json.dumps(wire["detail"], default=str)[:1200]}')
+            print(f'VIOLATION property={mod.PROP} replay={hpath}')
+            exit_code = 1
             continue
         path = write_replay(mod, vseed, small, v.to_wire())
         ok, out = replay_fresh(mod, path)
